@@ -222,6 +222,7 @@ pub fn eval(case: &Case) -> Verdict {
         }
         "law" => check_law(case.i[0], case.i[1], case.i[2]).map(|_| ()),
         "add_days" => check_add_days(case.i[0], i2f(case.i[1]), case.i[2] != 0).map(|_| ()),
+        "ora_add_days" => super::c16::check_add_days(case.i[0] as u8, case.i[1], i2f(case.i[2])).map(|_| ()),
         k => Err(format!("unknown case kind {k}")),
     };
     match r {
@@ -439,6 +440,31 @@ pub fn run(ctx: &Ctx) -> (Stats, Report) {
                 }
                 Err(m) => {
                     st.fail(idx, Case::new(P, "add_days", vec![x, f2i(f), sub as i128], vec![]), m);
+                    return;
+                }
+            }
+        }
+    });
+    st.merge(s);
+    // the Oracle-style variants share the microsecond rounding (then round to the second)
+    let mut ofs = super::c16::half_second_offsets();
+    ofs.extend(near_tie_days(seed, 100));
+    let s = par_sweep((tsf.len() * ofs.len() * 4) as u64, 2048, |range, st| {
+        for idx in range {
+            let which = (idx % 4) as u8;
+            let k = idx / 4;
+            let x = tsf[k as usize / ofs.len()];
+            let f = ofs[k as usize % ofs.len()];
+            st.evaluations += 1;
+            match super::c16::check_add_days(which, x, f) {
+                Ok((nt, class)) => {
+                    st.class(class);
+                    if nt {
+                        st.fps.push(hash_ints(0xadd1, &[which as i128, x, f2i(f)]));
+                    }
+                }
+                Err(m) => {
+                    st.fail(idx, Case::new(P, "ora_add_days", vec![which as i128, x, f2i(f)], vec![]), m);
                     return;
                 }
             }
